@@ -35,6 +35,8 @@ inductive St where
   | ready               -- its handle sits in `ready` or in a `suspend_now` loop, exactly once
   | running             -- it is `cur`
   | parked              -- suspended on an unresolved future / locked mutex / empty queue; wakeable
+  | pparked             -- suspended on an unresolved future through `co_await parallel(f)` (resume.h): its
+                        -- awaiter is a resume function that hands the handle to a brand new thread
   | waiting (d : Nat)   -- suspended in `co_await` of coroutine `d` (its async or its future)
   | stacked             -- blocked in a nested `start()` (on the C stack, in `calls`)
   | done
@@ -44,6 +46,7 @@ inductive St where
 inductive Mode where
   | discard   -- destructor (also when run by stack unwinding) / `clear()` / `coro_queue::resume(h)`
   | await     -- `co_await sp`
+  | par       -- `parallel_resume(std::move(sp))` (resume.h): a new thread runs `sp.clear()`
   deriving DecidableEq, Repr, Inhabited
 
 inductive Act where
@@ -54,7 +57,15 @@ inductive Act where
   | park                -- `co_await` an unresolved future (await_suspend returns `true`)
   | parkNext            -- same, but await_suspend returns `coro_queue::resume_handle_next()`
   | pause               -- `co_await pause()` / `coro_queue::swap_coroutine`
-  | start (d : Nat)     -- `async::start()`: queue installed first when not active, then direct `h.resume()`
+  /-- `async::start()` / `async::operator()` (`fut = true`: the caller keeps the future) or a coroutine whose
+  `initial_suspend` is `coro_queue::initial_awaiter` (`fut = false`): queue installed first when not active,
+  then the body runs directly on the caller's stack -/
+  | start (d : Nat) (fut : Bool)
+  | parkPar             -- `co_await parallel(f)` on an unresolved future
+  | wakePar (d : Nat)   -- resolve the future a `pparked` coroutine awaits: `parallel::perform_resume`
+  | hop                 -- `co_await pool` (thread_pool::co_awaiter): continue in a pool worker
+  | hopCur              -- `co_await thread_pool::current()`: re-enqueue to the pool when running in a worker
+  | job                 -- another thread (pool worker / new thread) takes its next job; see `jobs`
   | call (d : Nat)      -- `co_await async`: symmetric transfer into the child
   | join (d : Nat)      -- `co_await` the future returned by an earlier `start d` of the same coroutine
   | fin                 -- `co_return`: `final_awaiter`
@@ -78,6 +89,14 @@ structure State where
   blocks : List Bool := []
   base : Option Base := none
   calls : List Nat := []
+  /-- Work handed to other threads, oldest first: `(handles, pool)`. A pool job / a `parallel` thread runs
+  `coro_queue::resume(h)`, a `parallel_resume` thread runs `sp.clear()`: both are ordinary code of a thread that is
+  outside every activation, and such a thread carries no executor state (`c05_drain`): the model runs the job
+  in the one context, as soon as that context is idle (`Act.job`); the harness schedules the real threads
+  exactly like that (one at a time, to completion, while the others are outside every activation). -/
+  jobs : List (List Nat × Bool) := []
+  /-- the current activation runs in a pool worker (`thread_pool::_current != nullptr`) -/
+  worker : Bool := false
   -- ghost
   enq : List Nat := []
   deq : List Nat := []
@@ -107,6 +126,11 @@ def loopIds : Option Base → List Nat
   | some (Base.loop rest _) => rest
   | _ => []
 
+def jobIds (jobs : List (List Nat × Bool)) : List Nat := jobs.flatMap (·.1)
+
+/-- `coro_queue::can_block()`: blocking the thread would starve nobody -/
+def canBlock (s : State) : Bool := !s.active || s.ready.isEmpty
+
 def depth (s : State) : Nat := s.blocks.length + (if s.base.isSome then 1 else 0) + s.calls.length
 
 /-- The running chain of coroutines has returned (`await_suspend` returned `true`/`void`/`noop_coroutine`):
@@ -125,7 +149,7 @@ def settle (s : State) : State :=
         match s.ready with
         | x :: q => { s with ready := q, deq := s.deq ++ [x], cur := some x, st := upd s.st x St.running,
                              runs := s.runs ++ [x] }
-        | [] => { s with active := prev, base := none, cur := none }
+        | [] => { s with active := prev, base := none, cur := none, worker := false }
 
 /-- `suspend_now` in coroutine mode / `coro_queue::resume` with a queue installed: append, keep running -/
 def enqueue (s : State) (cs : List Nat) (rev : Bool) : State :=
@@ -162,10 +186,10 @@ def coPause (s : State) (c : Nat) : State :=
                        enq := s.enq ++ [c], deq := s.deq ++ [x], made := s.made ++ [c], runs := s.runs ++ [x],
                        cur := some x }
 
-def coStart (s : State) (c d : Nat) : State :=
+def coStart (s : State) (c d : Nat) (fut : Bool) : State :=
   if s.st d = St.fresh then
     { s with st := upd (upd s.st c St.stacked) d St.running, calls := c :: s.calls,
-             starter := upd s.starter d (some c), cur := some d,
+             starter := upd s.starter d (if fut then some c else none), cur := some d,
              made := s.made ++ [d], runs := s.runs ++ [d] }
   else s
 
@@ -187,13 +211,41 @@ def coFin (s : State) (c : Nat) : State :=
                        cur := some p, made := s.made ++ [p], runs := s.runs ++ [p] }
   | none => settle { s with st := upd s.st c St.done }
 
+/-- `parallel_resume(sp)`: a non-empty suspend point is moved into a new thread, the caller goes on -/
+def postJob (s : State) (cs : List Nat) (rev : Bool) : State :=
+  if handles s.st cs rev = [] then s
+  else { s with st := (collect s.st cs).1, jobs := s.jobs ++ [(handles s.st cs rev, false)],
+                made := s.made ++ handles s.st cs rev }
+
+def coParkPar (s : State) (c : Nat) : State :=
+  settle { s with st := upd s.st c St.pparked }
+
+/-- `parallel::perform_resume`: the handle goes to a new thread, the resolver gets an empty suspend point -/
+def wakePar (s : State) (d : Nat) : State :=
+  if s.st d = St.pparked then
+    { s with st := upd s.st d St.ready, jobs := s.jobs ++ [([d], false)], made := s.made ++ [d] }
+  else s
+
+/-- `thread_pool::co_awaiter::await_suspend`: the handle is enqueued in the pool, control returns to the resumer -/
+def coHop (s : State) (c : Nat) : State :=
+  settle { s with st := upd s.st c St.ready, jobs := s.jobs ++ [([c], true)], made := s.made ++ [c] }
+
+def coHopCur (s : State) (c : Nat) : State :=
+  if s.worker then coHop s c else s
+
 def coStep (s : State) (c : Nat) : Act → State
   | Act.wake cs Mode.discard rev => enqueue s cs rev
   | Act.wake cs Mode.await rev => coAwaitSp s c cs rev
+  | Act.wake cs Mode.par rev => postJob s cs rev
+  | Act.parkPar => coParkPar s c
+  | Act.wakePar d => wakePar s d
+  | Act.hop => coHop s c
+  | Act.hopCur => coHopCur s c
+  | Act.job => s
   | Act.park => coPark s c
   | Act.parkNext => coParkNext s c
   | Act.pause => coPause s c
-  | Act.start d => coStart s c d
+  | Act.start d fut => coStart s c d fut
   | Act.call d => coCall s c d
   | Act.join d => coJoin s c d
   | Act.fin => coFin s c
@@ -227,10 +279,24 @@ def mainLeave (s : State) : State :=
   | p :: bs => settle { s with blocks := bs, base := some (Base.loop [] p) }
   | [] => s
 
+/-- A thread that is outside every activation takes the oldest job: `coro_queue::resume(h)` resp. `sp.clear()`
+in ordinary code, i.e. `install_queue_and_call([&]{ for (h : job) h.resume(); })`. -/
+def mainJob (s : State) : State :=
+  if s.active = false ∧ s.blocks = [] then
+    match s.jobs with
+    | (hs, k) :: js =>
+        settle { s with jobs := js, active := true, base := some (Base.loop hs s.active), worker := k }
+    | [] => s
+  else s
+
 /-- acts of ordinary code (it cannot suspend: the awaiting forms degrade to the discarding ones) -/
 def mainStep (s : State) : Act → State
-  | Act.wake cs _ rev => mainWake s cs rev
-  | Act.start d => mainStart s d
+  | Act.wake cs Mode.par rev => postJob s cs rev
+  | Act.wake cs Mode.discard rev => mainWake s cs rev
+  | Act.wake cs Mode.await rev => mainWake s cs rev
+  | Act.wakePar d => wakePar s d
+  | Act.job => mainJob s
+  | Act.start d _ => mainStart s d
   | Act.enter => mainEnter s
   | Act.leave => mainLeave s
   | _ => s
